@@ -49,6 +49,24 @@ class NPX:
             return np.empty(shape, dtype=object)
         return TypedTable(shape, np.dtype(dtype))
 
+    def finfo(self, dtype):
+        import numpy as np
+
+        return np.finfo(np.float64 if np.dtype(dtype) == object else dtype)
+
+    def maximum(self, a, b):
+        """Element-wise maximum of symbolic values (forks on the comparison)."""
+        import numpy as np
+        from symex import core as C
+
+        a = np.asarray(a, dtype=object)
+        out = np.empty(a.shape, dtype=object)
+        bb = np.broadcast_to(np.asarray(b, dtype=object), a.shape)
+        for idx in np.ndindex(a.shape):
+            x, y = C.R.lift(a[idx]), C.R.lift(bb[idx])
+            out[idx] = x if bool(x >= y) else y
+        return out
+
     def sqrt(self, a):
         import numpy as np
         from symex import core as C
@@ -676,6 +694,7 @@ def replay_real(case):
     for n in (1, 2, 5, 50):
         vals = np.concatenate([rng.normal(size=n) * 10.0 ** rng.integers(-300, 300, size=n)])[:n]
         var = np.abs(rng.normal(size=n)) * 10.0 ** rng.integers(-200, 200, size=n)
+        var[::3] = [0.0, 5e-324, 1e-320, 2.5e-308, 1e-300][n % 5]  # empty bins (variance 0), subnormal and tiny variances
         x = np.sort(rng.normal(size=n) * 1e3)
         da = sc.DataArray(sc.array(dims=['tof'], values=vals, variances=var, unit='counts'), coords={'tof': sc.array(dims=['tof'], values=x, unit='us')})
         for header in (xye.GenerateHeader, 'user\n# header\n1 2 3'):
@@ -685,8 +704,10 @@ def replay_real(case):
             out = xye.load_xye(f, dim='tof', unit='counts', coord_unit='us')
             if not np.array_equal(out.coords['tof'].values, x) or not np.array_equal(out.values, vals):
                 bad.append(f'n={n}: coordinate/values not bit-identical')
-            if not np.allclose(out.variances, var, rtol=1e-15, atol=0):
-                bad.append(f'n={n}: variances off by more than a few ulp')
+            # (sqrt v)^2 in doubles: within a few ulp for normal v, and at most one subnormal step from v below the normal range
+            if not np.all(np.abs(out.variances - var) <= 4 * np.spacing(var) + 8 * 5e-324 * (var < 1e-290)):
+                k_ = int(np.argmax(np.abs(out.variances - var) > 4 * np.spacing(var) + 8 * 5e-324 * (var < 1e-290)))
+                bad.append(f'n={n}: variance {var[k_]!r} comes back as {out.variances[k_]!r}')
     base = sc.DataArray(sc.array(dims=['tof'], values=[1.0, 2.0], variances=[1.0, 1.0], unit='counts'), coords={'tof': sc.array(dims=['tof'], values=[1.0, 2.0], unit='us')})
     refusals = [
         (sc.values(base), sc.VariancesError),
